@@ -37,12 +37,35 @@ pub enum Answer {
     /// answer `Pending` this many times (waking each time), then transfer `then` bytes (0 = all)
     Pending(u32, usize),
     Fail,
+    /// fail this call only; the stream keeps working afterwards (transient fault)
+    FailTransient,
 }
 
 /// Decides the answer of the `idx`-th call. `alts` must be filled with the number of alternatives
 /// that existed at this point (for the explorer).
 pub trait Chooser: Send {
     fn choose(&mut self, idx: usize, kind: Kind, len: usize, is_async: bool) -> Answer;
+}
+
+/// optional short transfer at one call, and a transient failure at another call
+pub struct Transient {
+    pub short_at: Option<(usize, usize)>,
+    pub fail_at: usize,
+}
+impl Chooser for Transient {
+    fn choose(&mut self, idx: usize, _: Kind, _: usize, _: bool) -> Answer {
+        if idx == self.fail_at {
+            Answer::FailTransient
+        } else if let Some((i, n)) = self.short_at {
+            if i == idx {
+                Answer::Short(n)
+            } else {
+                Answer::Full
+            }
+        } else {
+            Answer::Full
+        }
+    }
 }
 
 pub struct DefaultChooser;
@@ -194,6 +217,10 @@ impl Core {
         self.log.push(OpRec { kind: Kind::Seek, pos, req: 0, done: 0, new_pos: self.pos, failed: false, pendings, data: Vec::new() });
         Ok(self.pos)
     }
+    fn log_fail_transient(&mut self, kind: Kind, req: usize) {
+        let pos = self.pos;
+        self.log.push(OpRec { kind, pos, req, done: 0, new_pos: pos, failed: true, pendings: 0, data: Vec::new() });
+    }
     fn log_fail(&mut self, kind: Kind, req: usize) {
         self.failed_once = true;
         let pos = self.pos;
@@ -265,6 +292,9 @@ impl Handle {
 pub struct SyncStream(pub Arc<Mutex<Core>>);
 
 impl Read for SyncStream {
+    fn read_vectored(&mut self, bufs: &mut [io::IoSliceMut<'_>]) -> io::Result<usize> {
+        self.read_into_slices(bufs)
+    }
     fn read(&mut self, buf: &mut [u8]) -> io::Result<usize> {
         let mut c = self.0.lock().unwrap();
         let avail = c.data.len().saturating_sub(c.pos as usize).min(buf.len());
@@ -273,9 +303,30 @@ impl Read for SyncStream {
                 c.log_fail(Kind::Read, buf.len());
                 Err(Core::fault())
             }
+            Answer::FailTransient => {
+                c.log_fail_transient(Kind::Read, buf.len());
+                Err(Core::fault())
+            }
             Answer::Short(n) => Ok(c.do_read(buf, n, 0)),
             _ => Ok(c.do_read(buf, usize::MAX, 0)),
         }
+    }
+}
+impl SyncStream {
+    fn read_into_slices(&mut self, bufs: &mut [io::IoSliceMut<'_>]) -> io::Result<usize> {
+        let total: usize = bufs.iter().map(|b| b.len()).sum();
+        let mut tmp = vec![0u8; total];
+        let n = self.read(&mut tmp)?;
+        let mut off = 0;
+        for b in bufs.iter_mut() {
+            if off >= n {
+                break;
+            }
+            let k = b.len().min(n - off);
+            b[..k].copy_from_slice(&tmp[off..off + k]);
+            off += k;
+        }
+        Ok(n)
     }
 }
 impl Write for SyncStream {
@@ -286,15 +337,30 @@ impl Write for SyncStream {
                 c.log_fail(Kind::Write, buf.len());
                 Err(Core::fault())
             }
+            Answer::FailTransient => {
+                c.log_fail_transient(Kind::Write, buf.len());
+                Err(Core::fault())
+            }
             Answer::Short(n) => Ok(c.do_write(buf, n, 0)),
             _ => Ok(c.do_write(buf, usize::MAX, 0)),
         }
+    }
+    /// A vectored write is ONE call offering the concatenation of the slices. The default answer
+    /// takes everything (as `Cursor`/`File` do); a short transfer models both a fragmenting
+    /// stream and a stream that only implements `write` (which would take just the first slice).
+    fn write_vectored(&mut self, bufs: &[io::IoSlice<'_>]) -> io::Result<usize> {
+        let all: Vec<u8> = bufs.iter().flat_map(|b| b.iter().copied()).collect();
+        self.write(&all)
     }
     fn flush(&mut self) -> io::Result<()> {
         let mut c = self.0.lock().unwrap();
         match c.next_answer(Kind::Flush, 0, false) {
             Answer::Fail => {
                 c.log_fail(Kind::Flush, 0);
+                Err(Core::fault())
+            }
+            Answer::FailTransient => {
+                c.log_fail_transient(Kind::Flush, 0);
                 Err(Core::fault())
             }
             _ => {
@@ -311,6 +377,10 @@ impl Seek for SyncStream {
         match c.next_answer(Kind::Seek, 0, false) {
             Answer::Fail => {
                 c.log_fail(Kind::Seek, 0);
+                Err(Core::fault())
+            }
+            Answer::FailTransient => {
+                c.log_fail_transient(Kind::Seek, 0);
                 Err(Core::fault())
             }
             _ => c.do_seek(to, 0),
@@ -339,6 +409,10 @@ fn async_gate(c: &mut Core, kind: Kind, len: usize, cx: &mut Context<'_>) -> Res
     match c.next_answer(kind, len, true) {
         Answer::Fail => {
             c.log_fail(kind, len);
+            Err(Core::fault())
+        }
+        Answer::FailTransient => {
+            c.log_fail_transient(kind, len);
             Err(Core::fault())
         }
         Answer::Full => Ok(Some((usize::MAX, 0))),
@@ -370,6 +444,10 @@ impl AsyncWrite for AsyncStream {
             Ok(None) => Poll::Pending,
             Ok(Some((limit, p))) => Poll::Ready(Ok(c.do_write(buf, limit, p))),
         }
+    }
+    fn poll_write_vectored(self: Pin<&mut Self>, cx: &mut Context<'_>, bufs: &[io::IoSlice<'_>]) -> Poll<io::Result<usize>> {
+        let all: Vec<u8> = bufs.iter().flat_map(|b| b.iter().copied()).collect();
+        self.poll_write(cx, &all)
     }
     fn poll_flush(self: Pin<&mut Self>, cx: &mut Context<'_>) -> Poll<io::Result<()>> {
         let mut c = self.0.lock().unwrap();
